@@ -881,9 +881,18 @@ func ruleC12Rollback(c *Ctx) {
 }
 
 func ruleC12Publish(c *Ctx) {
-	const rule = "C12-PUBLISH"
-	c.Doc(rule, "createDisk and markDiskAsRemoved: no error return is reachable after the in-memory chain (diskData, diskChildrenMap, activeDiskData, volume.files, a *disk's attributes) was modified, i.e. memory is published only after the on-disk commit (or rolled back)")
-	for _, name := range []string{fRep + "createDisk", fRep + "markDiskAsRemoved"} {
+	publishRule(c, "C12-PUBLISH", fRep+"createDisk", fRep+"markDiskAsRemoved", fRep+"removeDiskNode")
+}
+
+// rulePublishOf: the same discipline for a subset of the functions, under another rule id
+// (C11: the removal path only; createDisk's open finding belongs to C12).
+func rulePublishOf(rule string, names ...string) ruleFn {
+	return func(c *Ctx) { publishRule(c, rule, names...) }
+}
+
+func publishRule(c *Ctx, rule string, names ...string) {
+	c.Doc(rule, "createDisk, markDiskAsRemoved and removeDiskNode (whose metadata-write failures end the process instead): no error return is reachable after the in-memory chain (diskData, diskChildrenMap, activeDiskData, volume.files, a *disk's attributes) was modified, i.e. memory is published only after the on-disk commit (or rolled back)")
+	for _, name := range names {
 		fn := c.Anchor(rule, name)
 		if fn == nil {
 			continue
